@@ -197,11 +197,47 @@ def run(ctx):
         ctx.holds(r3, f"{C}::paramset_to_rootnames", "alpha_<name>, gamma_<name>_<i>")
     else:
         ctx.violated(r3, ptr, "rootname formats", "compat no longer produces alpha_<name> / gamma_<name>_<index>", found=str(fstrs))
-    src = A.unparse(irn.node)
-    if "startswith('gamma_')" in src and "startswith('alpha_')" in src and "'Lumi'" in src and "'lumi'" in src:
-        ctx.holds(r3, f"{C}::interpret_rootname", "recognises gamma_, alpha_, Lumi")
-    else:
-        ctx.violated(r3, irn, "interpret_rootname", "the reader's name grammar does not recognise the prefixes the writer uses")
+    # round trip through both compat functions, by interpretation (regular expressions are evaluated on the concrete
+    # names): the parameter-set name is chosen so that prefix-character stripping, greedy matching and digit
+    # handling all show ("amp_lag_2x" starts with characters of both prefixes and carries digits and underscores)
+    import re as _re
+
+    def _search(a, k):
+        m = _re.search(a[0], a[1]) if isinstance(a[0], str) and isinstance(a[1], str) else None
+        return None if m is None else Obj("match", {"groups": [m.group(0)] + list(m.groups())})
+
+    rx = {"search": _search, "match": lambda a, k: (lambda m: None if m is None else Obj("match", {"groups": [m.group(0)] + list(m.groups())}))(_re.match(a[0], a[1])),
+          "fullmatch": lambda a, k: (lambda m: None if m is None else Obj("match", {"groups": [m.group(0)] + list(m.groups())}))(_re.fullmatch(a[0], a[1])),
+          ".group": lambda recv, a, k: recv.attrs["groups"][int(to_poly(a[0]).const_value()) if a else 0]}
+    NAME = "amp_lag_2x"
+    kinds = [("scalar constrained", {"name": NAME, "is_scalar": True, "constrained": True, "n_parameters": Poly.const(1)}, {"name": NAME, "is_scalar": True, "constrained": True}),
+             ("scalar unconstrained", {"name": NAME, "is_scalar": True, "constrained": False, "n_parameters": Poly.const(1)}, {"name": NAME, "is_scalar": True, "constrained": False}),
+             ("per-bin (2 components)", {"name": NAME, "is_scalar": False, "constrained": True, "n_parameters": Poly.const(2)}, {"name": NAME, "is_scalar": False}),
+             ("luminosity", {"name": "lumi", "is_scalar": True, "constrained": True, "n_parameters": Poly.const(1)}, {"name": "lumi", "is_scalar": True})]
+    for lab, attrs, want in kinds:
+        try:
+            names = Interp({"paramset": Obj("p", attrs)}, {}, {}).run(A.strip_docstring(ptr.node.body))
+            lst = names if isinstance(names, list) else [names]
+            bad = None
+            for idx, rn in enumerate(lst):
+                if not isinstance(rn, str):
+                    raise Undecided(f"root name is not a string: {rn}")
+                got = Interp({"rootname": rn, "re": Obj("re")}, {}, {}, externals=rx).run(A.strip_docstring(irn.node.body))
+                exp = dict(want)
+                if isinstance(names, list):
+                    exp["element"] = idx
+                for k_, v_ in exp.items():
+                    g_ = got.get(k_)
+                    if k_ == "element":
+                        g_ = int(to_poly(g_).const_value()) if not isinstance(g_, str) else g_
+                    if g_ != v_:
+                        bad = (rn, k_, v_, g_)
+            if bad:
+                ctx.violated(r3, irn, f"interpret_rootname [{lab}]", "a parameter name written in ROOT convention is not read back as the same parameter set / component", expected=f"{bad[0]!r} -> {bad[1]} = {bad[2]!r}", found=f"{bad[1]} = {bad[3]!r}")
+            else:
+                ctx.holds(r3, f"{C}::interpret_rootname(paramset_to_rootnames(.)) [{lab}]", f"{lst} -> {want}")
+        except (Undecided, KeyError, TypeError, AttributeError, IndexError) as e:
+            ctx.unrecognised(r3, irn, f"interpret_rootname [{lab}]", f"not interpretable: {type(e).__name__}: {e}")
 
     # ------------------------------------------------------------ R4
     rmod = repo.module(R)
@@ -316,22 +352,30 @@ def _unit_modifiers(ctx, rid, bm, ps):
     wb = _branch(bm.node, "modifierspec['type']", None, "staterror")
     rb = _branch(ps.node, f"{MODVAR}.tag", None, "StatError")
     try:
-        wexp = next(c for c in A.calls_in(ast.Module(body=wb.body, type_ignores=[])) if A.call_attr(c) == "_export_root_histogram")
-        env = {"modifierspec": {"data": U, "name": "m", "type": "staterror"}, "sampledata": N, "np": Obj("np"), AV: {"HistoName": "h"}}
-        wv = to_poly(Interp(env, {}, {}).eval(wexp.args[1]))
         rmul = next(c for c in A.calls_in(ast.Module(body=rb.body, type_ignores=[])) if A.call_attr(c) == "multiply")
         from ..dep import Deps as _D0
+        from fractions import Fraction as _Fr
         _rd0 = _D0(ps.node)
-        renv = {"np": Obj("np")}
-        for arg in rmul.args:
-            for dn in A.names_loaded(arg):
-                from_modifier = any(f"{MODVAR}.attrib" in A.unparse(dv) for dv in _rd0.defs.get(dn, []))
-                renv[dn] = wv if from_modifier else N
-        rv = to_poly(Interp(renv, {}, {}).eval(rmul))
-        if rv == U:
-            ctx.holds(rid, "StatError histogram", f"writer {wv}, reader x nominal -> UNC")
-        else:
-            ctx.violated(rid, bm, "StatError relative/absolute", "the MC-statistical uncertainty does not survive export+import (relative in the file, absolute in pyhf)", expected="UNC", found=str(rv))
+        # the relative/absolute conversion is guarded by a test on the nominal: a positive and a negative yield are tried
+        for nomrep, lab in ((_Fr(5), "nominal > 0"), (_Fr(-3), "nominal < 0")):
+            region = {"NOM": nomrep, "UNC": _Fr(2)}
+            cap = {}
+            wext = {"_export_root_histogram": lambda a, k: cap.__setitem__("v", a[1]), "_make_hist_name": lambda a, k: "h", "asarray": lambda a, k: a[0], "array": lambda a, k: a[0], "zeros_like": lambda a, k: Poly(), "zeros": lambda a, k: Poly()}
+            env = {"modifierspec": {"data": U, "name": "m", "type": "staterror"}, "sampledata": N, "np": Obj("np"), AV: {"HistoName": "h", "Name": "m"}, "channelname": "c", "samplename": "s"}
+            Interp(env, {}, region, externals=wext).run(wb.body)
+            if "v" not in cap:
+                raise Undecided("the staterror branch exports no histogram")
+            wv = to_poly(cap["v"])
+            renv = {"np": Obj("np")}
+            for arg in rmul.args:
+                for dn in A.names_loaded(arg):
+                    from_modifier = any(f"{MODVAR}.attrib" in A.unparse(dv) for dv in _rd0.defs.get(dn, []))
+                    renv[dn] = wv if from_modifier else N
+            rv = to_poly(Interp(renv, {}, region).eval(rmul))
+            if rv == U:
+                ctx.holds(rid, f"StatError histogram [{lab}]", f"writer {wv}, reader x nominal -> UNC")
+            else:
+                ctx.violated(rid, bm, f"StatError relative/absolute [{lab}]", "the MC-statistical uncertainty does not survive export+import (relative in the file, absolute in pyhf)", expected="UNC", found=str(rv))
     except (StopIteration, Undecided, AttributeError) as e:
         ctx.unrecognised(rid, bm, "StatError conversion", f"{type(e).__name__}: {e}")
     # ---- ShapeSys
@@ -345,21 +389,24 @@ def _unit_modifiers(ctx, rid, bm, ps):
         bind = {}
         for nm, e in zip(tgt, src_tuple.elts):
             bind[nm] = U if "modifierspec" in A.unparse(e) else (N if "sampledata" in A.unparse(e) else Poly.atom("?"))
-        wv = to_poly(Interp({**bind, "np": Obj("np")}, {}, {}).eval(div))
         rcomp = next(n for n in ast.walk(ast.Module(body=rb.body, type_ignores=[])) if isinstance(n, ast.ListComp))
         rt = [t.id for t in rcomp.generators[0].target.elts]
         zargs = rcomp.generators[0].iter.args
-        rbind = {}
         from ..dep import Deps as _D
+        from fractions import Fraction as _Fr2
         _rd = _D(ps.node)
-        for nm, e in zip(rt, zargs):
-            from_modifier = any(f"{MODVAR}.attrib" in A.unparse(dv) for dn in A.names_loaded(e) for dv in _rd.defs.get(dn, []))
-            rbind[nm] = wv if from_modifier else N
-        rv = to_poly(Interp(rbind, {}, {}).eval(rcomp.elt))
-        if rv == U:
-            ctx.holds(rid, "ShapeSys histogram", f"writer {wv}, reader x nominal -> UNC")
-        else:
-            ctx.violated(rid, bm, "ShapeSys relative/absolute", "the uncorrelated shape uncertainty does not survive export+import", expected="UNC", found=str(rv))
+        for nomrep, lab in ((_Fr2(5), "nominal > 0"), (_Fr2(-3), "nominal < 0")):
+            region = {"NOM": nomrep, "UNC": _Fr2(2)}
+            wv = to_poly(Interp({**bind, "np": Obj("np")}, {}, region, externals={"asarray": lambda a, k: a[0], "zeros_like": lambda a, k: Poly()}).eval(div))
+            rbind = {}
+            for nm, e in zip(rt, zargs):
+                from_modifier = any(f"{MODVAR}.attrib" in A.unparse(dv) for dn in A.names_loaded(e) for dv in _rd.defs.get(dn, []))
+                rbind[nm] = wv if from_modifier else N
+            rv = to_poly(Interp(rbind, {}, region).eval(rcomp.elt))
+            if rv == U:
+                ctx.holds(rid, f"ShapeSys histogram [{lab}]", f"writer {wv}, reader x nominal -> UNC")
+            else:
+                ctx.violated(rid, bm, f"ShapeSys relative/absolute [{lab}]", "the uncorrelated shape uncertainty does not survive export+import", expected="UNC", found=str(rv))
     except (StopIteration, Undecided, AttributeError, IndexError) as e:
         ctx.unrecognised(rid, bm, "ShapeSys conversion", f"{type(e).__name__}: {e}")
     # ---- OverallSys / NormFactor / HistoSys attribute pairing
